@@ -1,6 +1,6 @@
 (* GENERATED ONCE by tools/pin.py from Properties/C10.v and committed: the pinned statements. *)
 From VF.Properties Require C10.
-From VF Require Import Base Gen_Errors Gen_Consts Fmt Lexer Grammar Response Tree HeaderSpec MessageSpec Resp_proofs Message_proofs Message_proofs2.
+From VF Require Import Base Gen_Errors Gen_Consts Fmt Lexer Grammar Response Tree HeaderSpec MessageSpec Resp_proofs Message_proofs Message_proofs2 ResponseDecoder ResponseDecoder_proofs.
 Open Scope N_scope.
 
 Section C10_statements.
@@ -41,4 +41,23 @@ Goal forall (root : tree D) (m : msg) (d : D) (f : fmt),
   wf_tree root -> wf_msg m = true ->
   run root (render_msg m) d f = Val (spec_message root m d f).
 Proof. apply VF.Properties.C10.C10_message_semantics. Qed.
+Goal forall units,
+  units <> [] -> Forall (fun ds => ds <> [] /\ forallb decodable ds = true) units ->
+  decode_response (emit_message units) = Some (map (flat_map items_of) units).
+Proof. apply VF.Properties.C10.C10_response_decodes. Qed.
+Goal forall (D : Type) (root : tree D) input d r units,
+  run root input d (mkFmt None []) = Val r -> r_err r = None ->
+  unit_texts (r_trace r) = map unit_text units ->
+  units <> [] -> Forall (fun ds => ds <> [] /\ forallb decodable ds = true) units ->
+  decode_response (r_out r) = Some (map (flat_map items_of) units).
+Proof. apply VF.Properties.C10.C10_framed_run_decodes. Qed.
+Goal forall units,
+  units <> [] -> Forall (fun ds => ds <> [] /\ forallb decodable ds = true) units ->
+  exists dec, decode_response (emit_message units) = Some dec /\ length dec = length units.
+Proof. apply VF.Properties.C10.C10_unit_count_preserved. Qed.
+Goal forall units,
+  units <> [] -> Forall (fun ds => ds <> [] /\ forallb decodable ds = true) units ->
+  exists dec, decode_response (emit_message units) = Some dec
+    /\ map (@length item) dec = map (fun ds => list_sum (map n_elements ds)) units.
+Proof. apply VF.Properties.C10.C10_item_count_preserved. Qed.
 End C10_statements.
